@@ -138,8 +138,8 @@ func genTF(prop string, seed uint64, tier string) *TFCase {
 		c.TransformMs = 1 + r.Intn(2500)
 	}
 	if r.Bool(0.5) {
-		c.FaultKind = []string{"error", "requeue-err", "requeue"}[r.Intn(3)]
-		if c.Flavour == "transform" {
+		c.FaultKind = []string{"error", "requeue-err", "requeue", "skip"}[r.Intn(4)]
+		if c.Flavour == "transform" && c.FaultKind != "skip" {
 			c.FaultKind = "error"
 		}
 		n := 1 + r.Intn(4)
@@ -333,7 +333,7 @@ func runTF(t *testing.T, cs Case, trace bool, prop string) *Outcome {
 			out.probe("output-destroyed")
 		}
 		if prop == "C06" {
-			tfCheckConverged("C06", c, inputs, outputs, rw.Log, out)
+			tfCheckConverged("C06", c, inputs, outputs, rw.Log, tw.lastSkip, out)
 			out.Nontrivial = outputCreated && len(rw.Log) > 4
 		} else {
 			tfCheckPrefixes("C07", c, rw.Log, out)
